@@ -177,7 +177,7 @@ def select_oracle(ids, want):
     outside="groups of more than 3; identities beyond the 3 sample values (solver-driven walk over the index box)",
     encodes=["csvpath/managers/paths/paths_manager.py:PathsManager.get_named_paths/_find_one/_get_to/_get_from/get_identified_paths_in/_paths_name_path",
              "csvpath/csvpath.py:CsvPath.identity", "csvpath/util/metadata_parser.py:MetadataParser.extract_metadata", "csvpath/util/reference_parser.py:ReferenceParser"],
-    tiers={"quick": {"timeout": 1800, "shards": product(kk=[0, 2, 3, 5], w=[0, 1], k1=[0], k2=[4], a2=[1])},
+    tiers={"quick": {"timeout": 1800, "shards": product(kk=[0, 2, 3, 5], w=[0, 1, 2], k1=[0], k2=[4])},
            "thorough": {"timeout": 6000, "shards": product(kk=[0, 1, 2, 3, 4, 5], w=[0, 1, 2], k1=[0, 3], a2=[1, 2])}},
 )
 def select_by_identity(k0: int, a0: int, kk: int, k1: int, a1: int, k2: int, a2: int, w: int) -> str:
